@@ -53,6 +53,10 @@ func lossyRun(w *World, stalled bool) {
 		if coll && t.Flag(1, 4) {
 			// an include predicate: the subscriber's view is then the filtered collection's, through the same lossy stages
 			sc.Include = &inclTable{arith: true}
+		} else if coll && !stalled && t.Flag(1, 4) {
+			// a subscription to one item: it shows the item's most recent value for as long as the item exists (also when
+			// the item went away and came back while the subscriber was not looking), and ends when the item is gone
+			sc.UsePullID, sc.PullID = true, "a"
 		}
 		s := &subscriber{name: fmt.Sprintf("s%d", i), cfg: sc, ctx: ctx, cancel: cancel}
 		if !stalled && t.Flag(1, 4) {
@@ -225,6 +229,16 @@ func lossyCheck(w *World, r *realRes, m0 *model, coll bool, s *subscriber) {
 		}
 		if !cur.HasMsg || a != b {
 			w.Violate("not-latest", fmt.Sprintf("%s [%s] last received %s, the value is %s; events: %s", s.name, s.cfg, last.New, cur, eventsString(s.events)), map[string]any{"resource": "value", "mode": mode})
+		}
+		return
+	}
+	if s.cfg.UsePullID {
+		g := r.apply(wop{Kind: opGet, ID: s.cfg.PullID})
+		switch {
+		case !g.Found && !s.closed && len(s.events) > 0:
+			w.Violate("not-latest", fmt.Sprintf("%s [%s]: item %q is gone, the stream has shown it and is still open; events: %s", s.name, s.cfg, s.cfg.PullID, eventsString(s.events)), map[string]any{"resource": "collection", "mode": mode})
+		case g.Found && !s.closed && !s.cfg.UpdatesOnly && (len(s.events) == 0 || s.events[len(s.events)-1].New != g.Msg):
+			w.Violate("not-latest", fmt.Sprintf("%s [%s]: item %q is %s, the stream's last event is not that; events: %s", s.name, s.cfg, s.cfg.PullID, g.Msg, eventsString(s.events)), map[string]any{"resource": "collection", "mode": mode})
 		}
 		return
 	}
